@@ -74,3 +74,38 @@ func VerifC19ProxySignOut() {
 	}
 	_ = t0
 }
+
+func init() { VerifHarnesses["VerifC19SignOutQuery"] = VerifC19SignOutQuery }
+
+// VerifC19SignOutQuery: whatever query string comes with the sign-out request (a few literal
+// shapes of parameters a client could add, so that net/url's own code computes every derived
+// URL), the signed return address stays on the request's own host.
+func VerifC19SignOutQuery() {
+	zz.ClockMaxAdvance(time.Second)
+	env := verifNewEnv(verifPolicy{Domains: []string{"*"}})
+	env.P.cookieSecure = zz.NondetBool("cookie.secure")
+	queries := []string{"", "rd=/signed-out", "rd=//other.sso.test/", "rd=%2F%2Fother.sso.test%2F", "rd=/%5Cother.sso.test/",
+		"redirect_uri=https://other.sso.test/", "redirect=//other.sso.test/&next=//other.sso.test/", "return_to=https://other.sso.test/"}
+	q := queries[zz.Choose("req.query", len(queries))]
+	host := "app.sso.test"
+	u, err := url.ParseRequestURI("/oauth2/sign_out?" + q)
+	if q == "" {
+		u, err = url.ParseRequestURI("/oauth2/sign_out")
+	}
+	if err != nil {
+		panic(err)
+	}
+	req := &http.Request{Method: "GET", Host: host, URL: u, Header: http.Header{}, RequestURI: u.RequestURI()}
+	rec := zz.NewRecorder()
+	env.P.SignOut(rec, req)
+	zz.Assert(rec.Status() == 302, "C19.proxy sign-out redirects (any query)")
+	loc, perr := url.Parse(rec.H.Get("Location"))
+	if perr != nil || loc == nil {
+		zz.Assert(false, "C19.sign-out Location is a URL (any query)")
+		return
+	}
+	ret, rerr := url.Parse(loc.Query().Get("redirect_uri"))
+	zz.Reach("signed-url-emitted")
+	zz.Assert(rerr == nil && ret != nil && ret.Host == host && !strings.HasPrefix(ret.Path, "//") && !strings.HasPrefix(ret.Path, "/\\"),
+		"C19.the signed return address stays on the request's own host whatever the request's query says")
+}
